@@ -134,6 +134,8 @@ PY_FNS = {
     "exp": ("np.exp({0})", "np.exp({0})", 1),
     "sq": ("{{{0} ** 2}}", "{0} ** 2", 1),
     "neg": ("I(-{0})", "I(-{0})", 1),
+    # evaluates to a plain 1-D numpy array (not a Series)
+    "arr": ("np.asarray({0}, dtype=float)", "np.asarray({0}, dtype=float)", 1),
     "stack": ("np.stack([{0}, {1}], axis=1)", "np.stack([{0}, {1}], axis=1)", 2),
 }
 
@@ -236,7 +238,7 @@ def factors(cat_cols=CAT_COLS, num_cols=NUM_COLS, contrasts=True, py=True, liter
         # dataframe library's business (Arrow has no bool + int kernel, numpy.exp(bool) is float16, ...)
         py_cols = [c for c in num_cols if c != "t"]
         opts.append(
-            st.tuples(st.sampled_from(["add1", "brace_add1", "exp", "sq", "neg"]), st.sampled_from(py_cols)).map(
+            st.tuples(st.sampled_from(["add1", "brace_add1", "exp", "sq", "neg", "arr"]), st.sampled_from(py_cols)).map(
                 lambda t: {"k": "py", "fn": t[0], "cols": [t[1]]}
             )
         )
